@@ -54,6 +54,8 @@ def gen(ctx):
             dm["matrix"] = [[x * k for x in row] for row in dm["matrix"]]
             dm["int_matrix"] = False
             dm["units"] = k
+        if rng.random() < 0.08:
+            dm = M.narrow_int_variant(rng, dm)
         cases.append({"kind": "score", "spec": spec, "dm": dm})
     # malformed stream: refusal clause
     combos = [(nm, hw) for nm in ("WSM", "WPM", "FMF", "MultiMOORA") for hw in ("min-objective", "zero", "negative", "tiny-negative", "none")]
